@@ -294,6 +294,8 @@ def make_cuts(rng, g, part, kinds=('$', '><'), labels=None):
             kind = rng.choice(kinds)
             o = d['order']
             oo = 1 if (o == 1.5 or d.get('lower')) else int(o)
+            if o == 1.5 and rng.random() < 0.25:
+                oo = 1.5          # the cut aromatic bond written with the aromatic symbol: [$x]:c...
             if kind == '$':
                 ka = kb = '$'
             else:
@@ -667,6 +669,8 @@ def build_case_shared(rng, g, part, p_share=0.5, kinds=('$', '><'), render_opts=
             kind = rng.choice(kinds)
             o = d['order']
             oo = 1 if (o == 1.5 or d.get('lower')) else int(o)
+            if o == 1.5 and rng.random() < 0.25:
+                oo = 1.5          # the cut aromatic bond written with the aromatic symbol: [$x]:c...
             if kind == '$':
                 ka = kb = '$'
             else:
